@@ -138,6 +138,7 @@ def colliding_pair():
 
 
 _U = None
+NKINDS = 8
 
 
 def universe():
@@ -152,6 +153,9 @@ def universe():
     H = RecordDescriptor("t/h", [("record", "inner"), ("varint", "k")])
     HL = RecordDescriptor("t/hl", [("record[]", "many")])
     E = RecordDescriptor("t/only_nested", [("varint", "e")])
+    # a type whose nested record carries the SAME name with other fields (a newer variant holding an older one): two same-name
+    # descriptors are announced while one record is written
+    X2 = RecordDescriptor("t/x", [("record", "parent"), ("string", "c")])
 
     def val(desc, tag):
         out = []
@@ -164,9 +168,10 @@ def universe():
         lambda: val(B, "B"),
         lambda: C("c-value"),
         lambda: H(C("inner-c"), 7),
-        lambda: HL([val(B, "m"), E(5)]),
+        lambda: HL([val(B, "m"), C("c-in-list"), E(5)]),
         lambda: GroupedRecord("g/r", [E(9), val(A, "g")]),
         lambda: GroupedRecord("g/n", [C("first"), GroupedRecord("g/in", [val(B, "n"), H(None, 1)])]),
+        lambda: X2(C("older"), "newer"),
     ]
     return _U
 
@@ -240,16 +245,16 @@ def run_history(fmt, steps, nwriters=2):
 def prestate(fmt: str, nxt: int):
     from crosshair.tracers import NoTracing
 
-    n = 7
+    n = NKINDS
 
-    def check(b0: bool, b1: bool, b2: bool, b3: bool, b4: bool, b5: bool, b6: bool, last: int) -> bool:
+    def check(b0: bool, b1: bool, b2: bool, b3: bool, b4: bool, b5: bool, b6: bool, b7: bool, last: int) -> bool:
         """
         post: _
         """
         if not (-1 <= last < n):
             return True
         steps = []
-        for i, b in enumerate((b0, b1, b2, b3, b4, b5, b6)):
+        for i, b in enumerate((b0, b1, b2, b3, b4, b5, b6, b7)):
             if b:
                 steps.append((i, 0))
         for j in range(n):
@@ -271,11 +276,11 @@ def history(fmt: str, k: int, first: int):
         post: _
         """
         codes = [c1, c2, c3][: k - 1]
-        if not all(0 <= c < 14 for c in codes):
+        if not all(0 <= c < 2 * NKINDS for c in codes):
             return True
         steps = [(first // 2, first % 2)]
         for c in codes:
-            for j in range(14):
+            for j in range(2 * NKINDS):
                 if c == j:
                     steps.append((j // 2, j % 2))
         with NoTracing():
@@ -288,11 +293,11 @@ def obligations(tier, seed):
     obs_ = [ob("O1-collision-witness", "smt", "collision_witness", {}, timeout=120, bounds="2 pairs per list, names <= 6 chars")]
     to = 120 if tier == "quick" else 600
     for fmt in ("stream", "json"):
-        for nxt in range(7):
-            obs_.append(ob(f"O2-prestate/{fmt}/next{nxt}", "xh", "prestate", {"fmt": fmt, "nxt": nxt}, timeout=to, group=f"O2-prestate/{fmt}", bounds="2^7 subsets x last-emitted kind"))
+        for nxt in range(NKINDS):
+            obs_.append(ob(f"O2-prestate/{fmt}/next{nxt}", "xh", "prestate", {"fmt": fmt, "nxt": nxt}, timeout=to, group=f"O2-prestate/{fmt}", bounds="2^8 subsets x last-emitted kind"))
         k = 3 if tier == "quick" else 4
-        for first in range(14):
-            obs_.append(ob(f"O3-history/{fmt}/K{k}/first{first}", "xh", "history", {"fmt": fmt, "k": k, "first": first}, timeout=to, group=f"O3-history/{fmt}", bounds=f"{k} steps x 7 kinds x 2 writers"))
+        for first in range(2 * NKINDS):
+            obs_.append(ob(f"O3-history/{fmt}/K{k}/first{first}", "xh", "history", {"fmt": fmt, "k": k, "first": first}, timeout=to, group=f"O3-history/{fmt}", bounds=f"{k} steps x {NKINDS} kinds x 2 writers"))
     return obs_
 
 
@@ -332,10 +337,10 @@ def replay(res):
     if "collision" in gid:
         return {"reproduced": False, "what": "collision witnesses are inputs, not violations: " + res["detail"][:200]}
     if "prestate" in gid:
-        names = ["b0", "b1", "b2", "b3", "b4", "b5", "b6", "last"]
+        names = ["b0", "b1", "b2", "b3", "b4", "b5", "b6", "b7", "last"]
         v = cex_args(res, names)
-        steps = [(i, 0) for i in range(7) if v.get(f"b{i}")]
-        if isinstance(v.get("last"), int) and 0 <= v["last"] < 7:
+        steps = [(i, 0) for i in range(NKINDS) if v.get(f"b{i}")]
+        if isinstance(v.get("last"), int) and 0 <= v["last"] < NKINDS:
             steps.append((v["last"], 0))
         steps.append((a["nxt"], 0))
     else:
@@ -347,7 +352,7 @@ def replay(res):
     problem = real_history(a["fmt"], steps)
     if problem is None:
         return {"reproduced": False, "what": f"history {steps} reads back exactly through the path-based writers/readers"}
-    names_ = ["collidingA", "collidingB", "same-name", "holder(record)", "holder(record[])", "grouped", "nested-group"]
+    names_ = ["collidingA", "collidingB", "same-name", "holder(record)", "holder(record[])", "grouped", "nested-group", "same-name-holder"]
     hist = [(names_[k], w) for k, w in steps]
     key = "C03/identifier-collision" if any(k in (0, 1) for k, _ in steps) and "identifier" in problem else f"C03/{a['fmt']}/{steps}"
     return {"reproduced": True, "key": key, "what": f"{a['fmt']}: history {hist}: {problem}"[:700], "input": {"fmt": a["fmt"], "steps": steps}}
